@@ -635,7 +635,7 @@ func ruleOPS2(c *Ctx) []Ob {
 			}
 			bad := ""
 			for _, s := range sites {
-				v := stripConv(s.Common().Args[m.valParam])
+				v := stripIfaceOnly(s.Common().Args[m.valParam])
 				if !types.Identical(v.Type(), ta.AssertedType) {
 					bad = fmt.Sprintf("%s builds the value as %s", c.fname(s.Parent()), typeString(v.Type()))
 				}
